@@ -236,10 +236,14 @@ func (c *httpsCloner) putKV(kv dns.SVCBKeyValue) {
 	}
 }
 
-// putIPs returns the underlying arrays of ips into c if possible.
+// putIPs returns the underlying arrays of ips into c if possible.  Only slices
+// with the capacity of exactly 16 bytes, like those created by
+// [httpsCloner.appendIPs], are reused.  A slice with a larger capacity may be a
+// part of a bigger array shared with the other hints, like the ones that
+// [dns.Msg.Unpack] produces, and so the arrays put into the pool could overlap.
 func (c *httpsCloner) putIPs(ips []net.IP) {
 	for _, ip := range ips {
-		if cap(ip) >= 16 {
+		if cap(ip) == 16 {
 			c.ip.Put((*[16]byte)(ip[:16]))
 		}
 	}
